@@ -1750,6 +1750,13 @@ inline bool Chunk::SafeToDeleteNl() const
       return(false);
    }
 
+   if (  tmp->Is(CT_IGNORED)
+      || GetNext()->Is(CT_IGNORED))
+   {
+      // the line breaks of a disabled region stay where they are (its text may be a '//' comment)
+      return(false);
+   }
+
    if (  Is(CT_NEWLINE)
       && tmp->TestFlags(PCF_IN_PREPROC))
    {
